@@ -230,3 +230,60 @@ impl<'a, 'b, 'c> AdtDeserializer<'a, 'b, 'c> {
         }
     }
 }
+
+/// Verification-only construction and inspection of the reader state (see /verif/DESIGN.md §5):
+/// lets a harness check `new` (header -> chunk windows) and the field readers separately.
+#[cfg(any(kani, desert_verif_hooks))]
+impl<'a, 'b, 'c> AdtDeserializer<'a, 'b, 'c> {
+    /// (start, pos, end) of every chunk window, relative to the enclosing region
+    pub fn verif_inputs(&self) -> Vec<(usize, usize, usize)> {
+        self.inputs.iter().map(|r| r.verif_parts()).collect()
+    }
+
+    pub fn verif_stored_version(&self) -> u8 {
+        self.stored_version
+    }
+
+    pub fn verif_made_optional_at(&self, chunk: u8, position: u8) -> Option<u8> {
+        self.made_optional_at
+            .get(&FieldPosition::new(chunk, position))
+            .copied()
+    }
+
+    pub fn verif_is_removed(&self, field_name: &str) -> bool {
+        self.removed_fields.contains(field_name)
+    }
+
+    /// the state `new` would produce for a header with the given chunk windows (start, length),
+    /// made-optional entries (chunk, position, step index) and removed field names
+    pub fn verif_from_parts(
+        metadata: &'a AdtMetadata,
+        context: &'b mut DeserializationContext<'c>,
+        stored_version: u8,
+        windows: &[(usize, usize)],
+        made_optional: &[(u8, u8, u8)],
+        removed: &[&str],
+    ) -> Self {
+        let mut made_optional_at = BTreeMap::new();
+        for (chunk, position, idx) in made_optional {
+            made_optional_at.insert(FieldPosition::new(*chunk, *position), *idx);
+        }
+        let mut removed_fields = HashSet::new();
+        for name in removed {
+            removed_fields.insert(name.to_string());
+        }
+        Self {
+            metadata,
+            context,
+            last_index_per_chunk: vec![-1i8; metadata.version as usize + 1],
+            read_constructor_idx: None,
+            stored_version,
+            made_optional_at,
+            removed_fields,
+            inputs: windows
+                .iter()
+                .map(|(start, length)| InputRegion::new(*start, *length))
+                .collect(),
+        }
+    }
+}
